@@ -65,15 +65,16 @@ def run_loop(coro_fn, budget=200000):
 # configurations (JSON-serialisable; part of every case dict)
 
 def config(kind, nterm=3, rw=(True, True, False), init=(4, 4, 4), delay=0.0, al_lag=0,
-           fmmu=(True, True, True), cycletime=0.01, silent=None):
+           fmmu=(True, True, True), cycletime=0.01, silent=None, lose_from=None):
     """terminal i: rw[i] -> has outputs and the device writes them (the group asks it to go
     OPERATIONAL); init[i] = AL state before start; al_lag = number of status polls a requested
     state change takes; delay = virtual seconds a frame takes round the segment;
     silent = index of a terminal that stops answering (drops off the segment) at the moment of
-    the first cancel(), or None"""
+    the first cancel(), or None; lose_from = n: every cyclic frame of the group after its n-th is
+    lost (the group runs on its time-out path) while register datagrams are still answered"""
     return dict(kind=kind, nterm=nterm, rw=list(rw[:nterm]), init=list(init[:nterm]),
                 delay=delay, al_lag=al_lag, fmmu=list(fmmu[:nterm]), cycletime=cycletime,
-                silent=silent)
+                silent=silent, lose_from=lose_from)
 
 
 class _LagPolicy:
@@ -183,6 +184,8 @@ def run_async_kind(cfg, cancels, stop_frames=None, budget=40000, fake_kernel=Non
     kind = cfg["kind"]
     if stop_frames is None:
         stop_frames = 5 if kind == "fast" else 3      # fast: two priming frames first
+        if cfg.get("lose_from") is not None:
+            stop_frames = max(stop_frames, cfg["lose_from"] + 3)    # three time-outs deep
     rstate = random.getstate()
     random.seed(2424)                                 # register_sync_group draws the table index
 
@@ -212,6 +215,8 @@ def run_async_kind(cfg, cancels, stop_frames=None, budget=40000, fake_kernel=Non
             if sg.task is not None and simbus.frame_index(frame) == getattr(sg, "packet_index", None):
                 rec.frames += 1
                 rec.add(t="frame")
+                if cfg.get("lose_from") is not None and rec.frames > cfg["lose_from"]:
+                    return [("lose",)]
             # "asked" = the request went on the wire, whether or not the terminal still answers
             for d in simbus.parse_frame(frame)["dgrams"]:
                 if d["cmd"] == simbus.FPWR and d["ado"] == 0x120 and len(d["data"]) >= 2 \
@@ -528,7 +533,10 @@ def run_process_kind(cfg, point, second, wd, tag, wall=30.0, grace=40.0):
                 for _ in range(int(point[1])):
                     await asyncio.sleep(0)
             elif point == "cycling":
-                while frames() < 3 and not task.done() and time.time() < t_end:
+                # three cycles, and if the cyclic frames get lost from some frame on: three
+                # time-outs into that
+                want = 3 + (cfg.get("lose_from") or 0)
+                while frames() < want and not task.done() and time.time() < t_end:
                     await asyncio.sleep(0.01)
             elif point == "exitrace":
                 await asyncio.sleep(0)
@@ -542,7 +550,13 @@ def run_process_kind(cfg, point, second, wd, tag, wall=30.0, grace=40.0):
                     if not task.done():
                         rec.add(t="cancel", at=where(task), held=dict(child=not _exited(pid)))
                         task.cancel()
-            await asyncio.wait([task], timeout=40.0)
+            # the task has to end within a bounded number of the child's cycles: it hangs if the
+            # child has sent 60 more cyclic frames since the cancel() and the task is not done
+            # (or after 40 s of wall clock, whichever comes first)
+            at_cancel = frames()
+            t_hang = time.time() + 40.0
+            while not task.done() and time.time() < t_hang and frames() < at_cancel + 60:
+                await asyncio.wait([task], timeout=0.05)
             if task.done():
                 rec.add(t="done", outcome=_outcome(task))
             else:
